@@ -79,14 +79,14 @@ fn chan_c07(g: &GenCfg) -> BoxedStrategy<Case> {
 pub const PROPS: &[Prop] = &[
     Prop {
         id: "C17",
-        quick: 6000,
+        quick: 12000,
         thorough: 100_000,
         rule: "net family on real kernel sockets under the deterministic scheduler: UnixStream::pair, UnixListener + connect, loopback TcpListener + connect (accept and connect inside the actors), optionally through split() halves, 1-3 connections with payloads of 0-512 KiB written in chunks of 1 B-64 KiB and read with buffers of 1 B-128 KiB (at most ~300 operations per side) until end of stream; UdpSocket and UnixDatagram with 1-19 datagrams of 1-3 KB; writer/reader each a thread (proxy coroutine path) or a coroutine; 1-3 workers; generated schedule. Non-trivial = at least one pre-emption AND (a writer blocked on a full socket buffer OR datagram transport OR a pre-emption inside src/io/sys/unix). Distinct = distinct hash of (program, config, schedule).",
         units: &[Unit { fam: "net", label: "net", share: 1, strategy: net::strategy_net }],
     },
     Prop {
         id: "C18",
-        quick: 6000,
+        quick: 12000,
         thorough: 100_000,
         rule: "netto family on real kernel sockets: one connection (UnixStream::pair, loopback TCP, or connected UDP) whose reader (thread or coroutine) performs 1-4 reads with generated read time-outs (100 us - 3 s, or none) while the peer sends one byte per read never / early / within a millisecond of the deadline / late, measured from the moment the read began; stale-timer pattern = a read that completes early followed by a longer or untimed one; optionally the reader coroutine is cancelled after a generated delay; 0-2 bystander connections transfer data meanwhile; 1/4 of the cases with stall faults. Non-trivial = at least one pre-emption AND (the previous operation's deadline fell inside the next operation, or data within 1 ms of a deadline, or the reader was cancelled, or both a time-out and a delivery were observed). Distinct = distinct hash of (program, config, schedule).",
         units: &[Unit { fam: "netto", label: "netto", share: 1, strategy: net::strategy_netto }],
